@@ -262,14 +262,10 @@ def n_pulse_gates(proc, qc):
         return 1
 
 
-def measure(w):
-    """-> (fidelity, leakage, number of pulse gates) of the witness on the real code"""
-    dev, N = w["dev"], w["N"]
-    proc = make_proc(dev, N, w.get("params"))
-    qc = build_circuit(N, w["gates"])
+def measure_loaded(proc, qc, dev, N):
+    """fidelity / leakage of what the processor has loaded, with respect to the circuit `qc` as it is NOW"""
     with warnings.catch_warnings():
         warnings.simplefilter("ignore")
-        proc.load_circuit(qc, schedule_mode=w.get("mode", "ASAP"))
         U = full_propagator(proc)
     off = 1 if dev == "cq" else 0
     dims = list(proc.dims)
@@ -282,7 +278,110 @@ def measure(w):
     return float(F), float(leak), n_pulse_gates(proc, qc)
 
 
+def measure(w):
+    """-> (fidelity, leakage, number of pulse gates) of the witness on the real code"""
+    dev, N = w["dev"], w["N"]
+    proc = make_proc(dev, N, w.get("params"))
+    qc = build_circuit(N, w["gates"])
+    with warnings.catch_warnings():
+        warnings.simplefilter("ignore")
+        proc.load_circuit(qc, schedule_mode=w.get("mode", "ASAP"))
+    return measure_loaded(proc, qc, dev, N)
+
+
+# ------------------------------------------------------------------------------------------
+# reuse histories: ONE processor, ONE QubitCircuit object, edited in place between the loads
+
+def same_gate(a, b):
+    return a[0] == b[0] and list(a[1]) == list(b[1]) and list(a[2]) == list(b[2])
+
+
+def edit_in_place(qc, old, new):
+    """turn the circuit object `qc` (built from the gate list `old`) into `new` the way a user sweeping a circuit does:
+    same gate, other angle: `qc.gates[k].arg_value = theta`; other gate: `qc.gates[k] = Gate(...)`; other targets of the same
+    gate: `qc.gates[k].targets = [...]`; extra gates are appended with add_gate, surplus gates deleted from the end"""
+    for k, (a, b) in enumerate(zip(old, new)):
+        if list(a) == list(b):
+            continue
+        if same_gate(a, b):
+            qc.gates[k].arg_value = b[3]
+        elif a[0] == b[0] and len(a[1]) == len(b[1]) and list(a[2]) == list(b[2]) and a[3] == b[3]:
+            qc.gates[k].targets = list(b[1])
+        else:
+            qc.gates[k] = mk_gate(b)
+    for b in new[len(old):]:
+        kw = {} if b[3] is None else {"arg_value": b[3]}
+        qc.add_gate(b[0], targets=(list(b[1]) or None), controls=(list(b[2]) or None), **kw)
+    if len(new) < len(old):
+        del qc.gates[len(new):]
+
+
+def run_history(w):
+    """generator: after every load_circuit of the history yields (step index, processor, circuit object)"""
+    dev, N = w["dev"], w["N"]
+    proc = make_proc(dev, N, w.get("params"))
+    qc, cur = None, None
+    for k, st in enumerate(w["steps"]):
+        if qc is None:
+            qc = build_circuit(N, st["gates"])
+        else:
+            edit_in_place(qc, cur, st["gates"])
+        cur = st["gates"]
+        with warnings.catch_warnings():
+            warnings.simplefilter("ignore")
+            proc.load_circuit(qc, schedule_mode=st.get("mode", "ASAP"))
+        yield k, proc, qc
+
+
+def channel_areas(proc):
+    """label -> integral of the loaded coefficient over time (step functions: sum c*dt; sampled pulses: trapezoid over the
+    samples - the padding zeros add nothing and instructions on one channel do not overlap); channels without pulse: absent"""
+    out = {}
+    for p in proc.pulses:
+        if p.tlist is None or p.coeff is None:
+            continue
+        tl, co = np.asarray(p.tlist, dtype=float), np.asarray(p.coeff, dtype=float)
+        if len(co) == len(tl) - 1:
+            a = float(np.sum(co * np.diff(tl)))
+        elif len(co) == len(tl) and getattr(proc, "pulse_mode", "") == "continuous":
+            a = float(np.sum((co[1:] + co[:-1]) * np.diff(tl)) / 2)
+        else:
+            a = float(np.sum(co[:-1] * np.diff(tl)))
+        out[p.label] = a
+    return out
+
+
+def model_areas(recs):
+    """the same quantity from the model's instruction list"""
+    out = {}
+    for name, t, c, a, scalar, tl, pulses in recs:
+        for lab, co in pulses:
+            if scalar:
+                v = co[0] * tl[0]
+            else:
+                v = sum((co[k + 1] + co[k]) * (tl[k + 1] - tl[k]) for k in range(len(tl) - 1)) / 2
+            out[lab] = out.get(lab, 0.0) + v
+    return out
+
+
+def check_history(w):
+    worst = None
+    try:
+        for k, proc, qc in run_history(w):
+            F, leak, n = measure_loaded(proc, qc, w["dev"], w["N"])
+            if F < 1 - (1 - F_MIN) * n or leak > LEAK_MAX * n:
+                worst = (f"after load {k + 1} of {len(w['steps'])} on ONE processor and ONE circuit object (edited in place between "
+                         f"the loads): process fidelity with the circuit as loaded {F:.6f} (required >= {1 - (1 - F_MIN) * n:.3f}), "
+                         f"leakage {leak:.2e} (allowed {LEAK_MAX * n:.3f}); {n} pulse gate(s); circuit now: {w['steps'][k]['gates']}")
+                break
+    except Exception as e:
+        return True, f"history cannot be loaded / run: {type(e).__name__}: {str(e)[:160]}"
+    return (worst is not None), (worst or f"every load of the history of {len(w['steps'])} loads within the bounds")
+
+
 def check_property(w):
+    if w.get("kind") == "history":
+        return check_history(w)
     try:
         F, leak, k = measure(w)
     except Exception as e:
@@ -722,6 +821,117 @@ class C18(PropertyCheck):
                     gs.append(["IDLE", [rng.randrange(N)], [], abs(ang)])
         return gs
 
+    # ---------------------------------------------------------------------------------
+    # reuse histories on ONE processor and ONE circuit object
+    FIXED_HISTORIES = [
+        {"dev": "cq", "N": 2, "steps": [
+            {"mode": "ASAP", "gates": [["RX", [0], [], PI / 2], ["ISWAP", [0, 1], [], None], ["RZ", [1], [], 0.3]]},
+            {"mode": "ALAP", "gates": [["RX", [0], [], PI / 2], ["ISWAP", [0, 1], [], None], ["RZ", [1], [], 0.3]]},
+            {"mode": "ASAP", "gates": [["RX", [0], [], PI], ["ISWAP", [0, 1], [], None], ["RZ", [1], [], 0.3]]},
+            {"mode": "ASAP", "gates": [["RZ", [0], [], -2.0], ["ISWAP", [0, 1], [], None], ["RZ", [1], [], 0.3]]}]},
+        {"dev": "cq", "N": 3, "steps": [
+            {"mode": "ASAP", "gates": [["ISWAP", [0, 1], [], None], ["RX", [2], [], 1.0]]},
+            {"mode": None, "gates": [["ISWAP", [0, 2], [], None], ["RX", [2], [], 1.0]]},
+            {"mode": "ALAP", "gates": [["SQRTISWAP", [0, 2], [], None], ["RX", [2], [], -1.0]]}]},
+        {"dev": "cq", "N": 2, "steps": [
+            {"mode": "ASAP", "gates": [["CNOT", [1], [0], None]]},
+            {"mode": "ASAP", "gates": [["CNOT", [0], [1], None]]}]},
+        {"dev": "scq", "N": 2, "steps": [
+            {"mode": "ASAP", "gates": [["RY", [1], [], 0.5], ["CNOT", [1], [0], None]]},
+            {"mode": "ASAP", "gates": [["RY", [1], [], -1.5], ["CNOT", [1], [0], None]]},
+            {"mode": "ALAP", "gates": [["RX", [0], [], PI], ["CNOT", [1], [0], None]]}]},
+        {"dev": "scq", "N": 1, "steps": [
+            {"mode": "ASAP", "gates": [["RX", [0], [], PI / 2]]},
+            {"mode": "ASAP", "gates": [["RX", [0], [], -PI]]},
+            {"mode": "ASAP", "gates": [["RX", [0], [], -PI], ["RY", [0], [], 0.7]]}]},
+    ]
+
+    def _rand_history(self, rng, cheap=False):
+        dev = rng.choice(["cq", "scq"])
+        N = rng.randint(1, 3) if dev == "cq" else rng.randint(1, 2)
+        ang = lambda: rng.choice([rng.uniform(-2 * PI, 2 * PI), PI / 2, PI, -PI / 2, 0.3])
+
+        def gate():
+            if N >= 2 and rng.random() < 0.35:
+                a, b = rng.sample(range(N), 2)
+                n = rng.choice(["ISWAP", "SQRTISWAP", "CNOT", "SWAP"] if dev == "cq" else ["CNOT", "CSIGN", "RZX"])
+                if n in ("CNOT", "CSIGN"):
+                    return [n, [a], [b], None]
+                return [n, [a, b], [], (rng.uniform(0.2, 2 * PI) if n == "RZX" else None)]
+            n = rng.choice(["RX", "RZ", "RY", "SNOT"] if dev == "cq" else ["RX", "RY", "RZ", "X"])
+            return [n, [rng.randrange(N)], [], (ang() if n in ("RX", "RY", "RZ") else None)]
+
+        cur = [gate() for _ in range(rng.randint(1, 2 if cheap else 3))]
+        steps = [{"mode": rng.choice(["ASAP", "ALAP", None]), "gates": [list(g) for g in cur]}]
+        for _ in range(rng.randint(1, 3)):
+            cur = [list(g) for g in cur]
+            k = rng.randrange(len(cur))
+            r = rng.random()
+            if r < 0.15:
+                pass                                           # the same circuit once more (other mode)
+            elif r < 0.5 and cur[k][3] is not None:
+                cur[k][3] = ang()                              # angle sweep in place
+            elif r < 0.8:
+                cur[k] = gate()                                # another gate, same number of gates
+            elif r < 0.9:
+                cur.append(gate())
+            elif len(cur) > 1:
+                cur.pop()
+            steps.append({"mode": rng.choice(["ASAP", "ALAP", None]), "gates": cur})
+        return {"kind": "history", "dev": dev, "N": N, "params": None, "steps": steps}
+
+    def _history_cases(self, ctx, res, hists):
+        """after EVERY load of every history: channel labels, the area (time integral) of every channel and the reported global
+        phase as loaded in the processor, against the model compiling the native form of the circuit AS IT IS NOW (transpiled by a
+        fresh processor from a fresh circuit object; the transpilation itself is C13's)"""
+        cmp = Cmp(res.hist)
+        todo = []          # (history, step index, live areas, live phase, native gate list | error)
+        for w in hists:
+            w = dict(w, kind="history", params=w.get("params"))
+            try:
+                for k, proc, qc in run_history(w):
+                    fresh = make_proc(w["dev"], w["N"], w.get("params"))
+                    with warnings.catch_warnings():
+                        warnings.simplefilter("ignore")
+                        nat = fresh.transpile(build_circuit(w["N"], w["steps"][k]["gates"])).gates
+                    gl = [[g.name, list(g.targets or []), list(g.controls or []),
+                           (None if g.arg_value is None else float(g.arg_value))] for g in nat]
+                    ph = float(getattr(proc, "global_phase", 0.0) or 0.0)
+                    todo.append((w, k, channel_areas(proc), ph, gl, fresh))
+            except Exception as e:
+                inp = {"history": w["steps"], "dev": w["dev"], "N": w["N"]}
+                res.case(inp, nontrivial=True, tags=["history " + w["dev"], "verdict=raises"])
+                res.disagree(inp, "loads", classify(e), "a load of the reuse history raises", w)
+        lines = []
+        for w, k, live, ph, gl, fresh in todo:
+            if w["dev"] == "cq":
+                lines.append("cq " + hw_line("cq", w["N"], fresh) + " gates=" + enc_gates(gl))
+            else:
+                lines.append("scq drag=1 ns=101 " + hw_line("scq", w["N"], fresh) + " gates=" + enc_gates(gl))
+        outs = ctx.driver("drv_cqed").run(lines)
+        for (w, k, live, ph, gl, fresh), o in zip(todo, outs):
+            inp = {"history": w["steps"][:k + 1], "dev": w["dev"], "N": w["N"]}
+            edited = k > 0 and w["steps"][k]["gates"] != w["steps"][k - 1]["gates"]
+            res.case(inp, nontrivial=True, tags=["history " + w["dev"], "load after an in-place edit" if edited else
+                                                 ("first load" if k == 0 else "reload unchanged")])
+            st, mrecs, mph = parse_model(o)
+            wit = dict(w, steps=w["steps"][:k + 1])
+            if st != "ok":
+                res.disagree(inp, st, "ok", "model refuses the native form of the current circuit", wit)
+                continue
+            want = model_areas(mrecs)
+            labs = sorted(set(want) | set(live))
+            scale = max([abs(x) for x in want.values()] + [1e-3])
+            tol = (1e-9 if w["dev"] == "cq" else 2e-3) * scale
+            bad = [l for l in labs if abs(want.get(l, 0.0) - live.get(l, 0.0)) > tol]
+            res.hist["channel areas compared"] = res.hist.get("channel areas compared", 0) + len(labs)
+            if bad:
+                res.disagree(inp, {l: want.get(l, 0.0) for l in bad[:6]}, {l: live.get(l, 0.0) for l in bad[:6]},
+                             f"after load {k + 1} on one processor / one circuit object: pulse area on channel(s) {bad[:6]} is not that "
+                             f"of the circuit as it is now", wit)
+            elif w["dev"] == "cq" and abs(mph - ph) > 1e-9:
+                res.disagree(inp, mph, ph, f"after load {k + 1}: reported global phase is not that of the circuit as it is now", wit)
+
     def correspondence(self, ctx, res):
         rng = ctx.rng
         self.flags()        # tolerate a source the translator refuses: the driver then carries the last good tables
@@ -747,6 +957,11 @@ class C18(PropertyCheck):
             mal = i % 4 == 3
             cases.append((dev, N, self._rand_params(rng, dev, N), self._rand_gates(rng, dev, N, mal), rng.random() < 0.75))
         self._compile_cases(ctx, res, cases, "random")
+        hists = [dict(h) for h in self.FIXED_HISTORIES] + [self._rand_history(rng) for _ in range(400 if ctx.thorough else 50)]
+        self._history_cases(ctx, res, hists)
+        res.notes.append(f"reuse histories: {len(hists)} histories of 2-4 load_circuit calls on ONE processor with ONE QubitCircuit "
+                         f"object edited in place between the loads (angle, replacement gate, targets, append, delete; schedule "
+                         f"modes ASAP/ALAP/None), compared after every load")
 
     # ---------------------------------------------------------------------------------
     def oracle_replay(self, ctx, w):
@@ -838,7 +1053,9 @@ class C18(PropertyCheck):
         strengths from families the unchanged code tolerates - a search beyond the property's claim, labelled as such -, then
         random circuits on both kinds of devices."""
         t0 = time.time()
-        for w in itertools.chain(self._nonuniform(small_only=True), self._systematic(), self._nonuniform()):
+        for w in itertools.chain(({"kind": "history", "params": None, **h} for h in self.FIXED_HISTORIES),
+                                 (self._rand_history(ctx.rng, cheap=True) for _ in range(12)),
+                                 self._nonuniform(small_only=True), self._systematic(), self._nonuniform()):
             f, d = check_property(w)
             if f:
                 yield w, d
@@ -866,6 +1083,14 @@ class C18(PropertyCheck):
             nn += 1
             if f:
                 yield w, d
+        # reuse histories (one processor, one circuit object edited in place), fidelity measured after every load
+        nh = 0
+        for h in self.FIXED_HISTORIES[:2] + self.FIXED_HISTORIES[3:]:
+            w = {"kind": "history", "params": None, **h}
+            f, d = check_property(w)
+            nh += 1
+            if f:
+                yield w, d
         allw = list(self._systematic())
         two = [w for w in allw if len(w["gates"][0][1]) + len(w["gates"][0][2]) == 2 and w["N"] == 2]
         rest = [w for w in allw if w not in two]
@@ -885,7 +1110,7 @@ class C18(PropertyCheck):
             if f:
                 yield w, d
         ctx.log(f"measured fidelity / leakage on {n} native gates and short circuits at the default parameters, and on {nn} native "
-                f"gates of two-qubit devices with non-uniform per-qubit control strengths (search beyond the claim)")
+                f"gates of two-qubit devices with non-uniform per-qubit control strengths (search beyond the claim); {nh} reuse histories measured after every load")
 
 
 CHECK = C18()
